@@ -138,8 +138,11 @@ def r05_1(ctx):
         fi, outs = r.run("iteration_stmt", lambda: [Tok(tok, kw), r.pure("items[1]"), eff(r, "items[2]")])
         ctx.check(f"{kw} loop is rejected", all(o.kind == "raise" for o in outs), "raises", " | ".join(outcome_text(o)[:40] for o in outs), fn_where(idx, fi))
     # templates
-    def bool_vt(isb):
-        return mk_vt("tc", False, 1 if isb else 32, ("PURE", "BOOL") if isb else ("PURE",))
+    def bool_vt(isb, signed=False, width=32):
+        return mk_vt("tc", signed, 1 if isb else width, ("PURE", "BOOL") if isb else ("PURE",))
+    from .c10 import truth_test_width_independence
+
+    truth_test_width_independence(ctx)  # a condition of any scalar type is tested whole: value != 0, no narrowing in front of the test
     for isb in (True, False):
         beta = "<c.il_read()>" if isb else "NON_ZERO(<c.il_read()>)"
         fi2, outs = run_il_exec(idx, "Branch", lambda: {"cond": mk_pure("c", bool_vt(isb)), "then": mk_pure("t", cls="Effect"), "otherwise": mk_pure("e", cls="Effect")}, method="il_write")
@@ -217,6 +220,9 @@ def r05_2(ctx):
 
 @rule("R05.3", "C05", "top level: statements reach the final instruction sequence in source order; pass-through callbacks preserve order", min_instances=5)
 def r05_3(ctx):
+    from .c06 import r06_3
+
+    r06_3(ctx)  # an expression statement (`i++;`, `f(x);`) takes effect where it stands, not in front of the behaviour
     idx = get_index(ctx.env)
     r = Runner(idx)
     box = {}
@@ -297,6 +303,9 @@ def r05_4(ctx):
             b_ok = origin(b) == "items[2]"
             ctx.check(f"compound assignment {op}", ok and isinstance(opt, EnumV) and opt.value == sym and a_ok and b_ok,
                       f"{ncls}[{sym}](target, source)", f"{node.cls if isinstance(node, AObj) else lab(node)}[{opt.value if isinstance(opt, EnumV) else opt}](a={a}, b={b})", fn_where(idx, fi))
+    from .c03 import assignment_conversion_checks
+
+    assignment_conversion_checks(ctx)  # "with the C result converted to the target type": the operation type of every op=
     gm = get_grammar(ctx.env)
     from .c17 import term_literals
     lits = term_literals(gm, "ASSIGN_OP") or set()
